@@ -316,7 +316,7 @@ func lexStmt(l *lexer) stateFn {
 
 // lexString scans a run of non-separator characters
 func lexString(l *lexer) stateFn {
-	for !isTerminator(l.peek()) {
+	for r := l.peek(); r != eof && !isTerminator(r); r = l.peek() {
 		l.next()
 	}
 	l.emit(itemString)
